@@ -17,6 +17,8 @@ RULE = ("BFS over histories of {scheduler tick, pause(i), resume(i), stop(i), wh
         "ok / failed, Cooperator.stop(), add a task by cooperate()/coiterate()} on a real Cooperator(scheduler=manual, "
         "terminationPredicateFactory=k work units) holding <= 3 tasks; what each iterator does on each next() call "
         "{yield value, yield unfired Deferred, yield already-fired Deferred, yield already-failed Deferred, StopIteration, raise; "
+        "yield a fired Deferred whose chain is suspended on an unfired inner Deferred, yield a Deferred fired while pause()d by "
+        "its owner (both complete later, ok or failed; quick: k=1 only); "
         "for k=1 also: pause() own task then yield, stop() own task then yield, stop() own task then StopIteration} "
         "is part of the tick event, so every iterator script up to the depth is covered. After every transition the real "
         "objects are compared with a per-task reference (runnable / user-paused n times / waiting / finished(reason)). "
@@ -45,11 +47,16 @@ MIN = {"quick": {"states": 150000, "nontrivial": 145000, "outcomes": 7},
        "thorough": {"states": 775000, "nontrivial": 770000, "outcomes": 7, "shards_searched_to_closure": 42}}
 
 BEH6 = ("V", "D", "S", "R", "Ds", "Df")
+# Dc: yields a Deferred that has already fired but whose chain is suspended on an unfired inner Deferred (called, paused by
+#     chaining); Dp: yields a Deferred that was pause()d by its owner and then fired (called, result not a Failure, chain not run).
+#     Both are "not completed": the task waits until the inner Deferred fires / the owner unpauses, with success or failure.
+BEH8 = BEH6 + ("Dc", "Dp")
 BEH9 = BEH6 + ("P", "X", "XS")     # the iterator pauses / stops its own task from inside next(), then yields / finishes
+BEH11 = BEH9 + ("Dc", "Dp")
 BEH4 = ("V", "D", "S", "R")
 CLOSURE = 60      # deeper than the deepest reachable canonical state (18 measured): the search runs until no new state appears
-TIERS = {"quick": [(1, 6, BEH9), (2, 6, BEH6)],
-         "thorough": [(1, CLOSURE, BEH9), (2, CLOSURE, BEH6), (3, CLOSURE, BEH4)]}
+TIERS = {"quick": [(1, 6, BEH11), (2, 6, BEH6)],
+         "thorough": [(1, CLOSURE, BEH11), (2, CLOSURE, BEH8), (3, CLOSURE, BEH4)]}
 MAXTASKS = 3
 REASON_EXC = {"done": "TaskDone", "failed": "TaskFailed", "stopped": "TaskStopped", "schedstopped": "SchedulerStopped"}
 
@@ -97,7 +104,8 @@ class T:
         self.task = None
         self.wd = []          # [Deferred, [results]]
         self.u = 0            # pauses issued by the harness and not yet resumed
-        self.waiting = None   # unfired Deferred the iterator yielded
+        self.waiting = None   # fire(ok, exc) thunk completing the not-yet-completed Deferred the iterator yielded
+        self.wkind = None     # "D" / "Dc" / "Dp"
         self.fin = None       # (reason, payload)
         self.limbo = False    # paused/waiting when the cooperator was stopped
         self.fin_by = None
@@ -186,7 +194,7 @@ class St:
         elif t.u:
             self.flag("Cooperator:task-advanced-while-paused", "next() on task %d, paused %d times, after %s" % (i, t.u, self.last))
         elif t.waiting is not None:
-            self.flag("Cooperator:task-advanced-while-waiting-on-deferred", "next() on task %d after %s" % (i, self.last))
+            self.flag("Cooperator:task-advanced-while-waiting-on-deferred-%s" % t.wkind, "next() on task %d after %s" % (i, self.last))
         elif t.limbo:
             self.flag("Cooperator:task-advanced-after-cooperator-stop", "next() on task %d after %s" % (i, self.last))
         self.window.append(i)
@@ -208,9 +216,29 @@ class St:
             if b == "X":
                 return i
             raise StopIteration()
-        if b == "D":
-            t.waiting = defer.Deferred()
-            return t.waiting
+        if b in ("D", "Dc", "Dp"):
+            from twisted.python.failure import Failure
+            t.wkind = b
+            if b == "D":
+                d = defer.Deferred()
+                t.waiting = lambda ok, exc, d=d: d.callback(None) if ok else d.errback(exc)
+                return d
+            if b == "Dc":
+                inner, d = defer.Deferred(), defer.Deferred()
+                d.addCallback(lambda _, inner=inner: inner)
+                d.callback(None)            # fired; chain suspended until inner fires
+                t.waiting = lambda ok, exc, inner=inner: inner.callback(None) if ok else inner.errback(exc)
+                return d
+            d, box = defer.Deferred(), [None]
+            d.addCallback(lambda _, box=box: box[0])
+            d.pause()
+            d.callback(None)                # fired while paused by its owner: no callback has run yet
+
+            def fire(ok, exc, d=d, box=box):
+                box[0] = None if ok else Failure(exc)
+                d.unpause()
+            t.waiting = fire
+            return d
         if b == "Ds":
             return defer.succeed(None)
         exc = Boom(b)
@@ -268,15 +296,16 @@ class St:
                 if d is not None:
                     self.new_wd(t, d)
             elif op == "fire":
-                d, t.waiting = t.waiting, None
+                fire, t.waiting = t.waiting, None
+                wk, t.wkind = t.wkind, None
                 if ev[2]:
-                    self.real("firing-awaited-deferred", d.callback, None)
+                    self.real("firing-awaited-deferred-%s" % wk, fire, True, None)
                 else:
                     exc = Boom("later")
                     if t.fin is None:
                         self.finish(t, "failed", exc)
                         t.limbo = False
-                    self.real("failing-awaited-deferred", d.errback, exc)
+                    self.real("failing-awaited-deferred-%s" % wk, fire, False, exc)
         self.post()
 
     def enabled(self):
@@ -439,7 +468,7 @@ class St:
             priv = (order, meta, tuple(real), coop._delayedCall is None, coop._stopped)
         except Exception:
             priv = ("opaque", id(self))
-        return (tuple((t.kind, t.u, t.waiting is not None, t.fin and t.fin[0], t.limbo,
+        return (tuple((t.kind, t.u, t.wkind, t.fin and t.fin[0], t.limbo,
                        tuple(len(rec[1]) for rec in t.wd)) for t in self.tasks),
                 self.coop_stopped, len(self.pending), self.waits(), priv)
 
